@@ -120,6 +120,84 @@ def c09c(ctx, tu, seen):
                % (macro, "copy" if want == 1 else "reference", {0: "nothing", 1: "copy", 2: "reference"}.get(got, got)))
 
 
+COPY_TRAP = r'''
+#include <trompeloeil.hpp>
+#include <utility>
+namespace w {
+template <typename T> struct dependent_false { static constexpr bool value = false; };
+// copying this type is a compile-time error, but only where a copy is actually made (member of a class template: its
+// body is instantiated on use).  Moving is fine and deliberately NOT noexcept (move_if_noexcept would copy).
+template <typename Tag = void>
+struct CopyTrap {
+  CopyTrap() {}
+  CopyTrap(CopyTrap&&) {}
+  CopyTrap(const CopyTrap&) { static_assert(dependent_false<Tag>::value, "COPIED"); }
+  CopyTrap& operator=(CopyTrap&&) { return *this; }
+  CopyTrap& operator=(const CopyTrap&) { static_assert(dependent_false<Tag>::value, "COPIED"); return *this; }
+};
+using T = CopyTrap<>;
+void sink(T&&);
+bool look(T const&);
+struct M {
+  MAKE_MOCK1(by_rref, T(T&&));
+  MAKE_MOCK1(by_value, T(T));
+  MAKE_MOCK3(mid, T(int, T&&, int&));
+  MAKE_CONST_MOCK1(cby_rref, T(T&&));
+  MAKE_MOCK1(vsink, void(T&&));
+  MAKE_MOCK1(by_cref, void(T const&));
+};
+void use(M& m) {
+  REQUIRE_CALL(m, by_rref(trompeloeil::_)).WITH(look(_1)).RETURN(std::move(_1));
+  REQUIRE_CALL(m, by_value(trompeloeil::_)).WITH(look(_1)).SIDE_EFFECT(look(_1)).RETURN(std::move(_1));
+  REQUIRE_CALL(m, mid(trompeloeil::_, trompeloeil::_, trompeloeil::_)).LR_WITH(look(_2)).LR_SIDE_EFFECT(_3 = _1).LR_RETURN(std::move(_2));
+  REQUIRE_CALL(m, cby_rref(trompeloeil::_)).RETURN(std::move(_1));
+  REQUIRE_CALL(m, vsink(trompeloeil::_)).SIDE_EFFECT(sink(std::move(_1)));
+  REQUIRE_CALL(m, by_cref(trompeloeil::_)).WITH(look(_1)).SIDE_EFFECT(look(_1));
+#ifdef CONTROL
+  REQUIRE_CALL(m, by_rref(trompeloeil::_)).RETURN(_1);
+#endif
+}
+void call(M& m, int& i) {
+  T a = m.by_rref(T{});
+  T b = m.by_value(T{});
+  T c = m.mid(1, T{}, i);
+  m.vsink(std::move(a));
+  m.by_cref(b);
+  (void)c;
+}
+}
+int main() {}
+'''
+
+
+def c09e(ctx):
+    """rvalue and move-only arguments reach the clauses, and are handed on by RETURN, without being copied: a type
+    whose copy operations do not compile when used goes through every path (parameter tuple, _N, WITH / SIDE_EFFECT,
+    RETURN(std::move(_N)) and the return-value plumbing); the control - a RETURN that must copy - has to be rejected."""
+    gen = facts.gen_dir()
+    os.makedirs(gen, exist_ok=True)
+    path = os.path.join(gen, "c09_copytrap.cpp")
+    with open(path, "w") as fh:
+        fh.write(COPY_TRAP)
+    quick = ctx.tier == "quick"
+    cfgs = [("clang++", "c++17")] if quick else [(c, s) for c in ("clang++", "g++") for s in ("c++14", "c++17", "c++20")]
+    jobs = [(cc.syntax_cmd(c, s, path), None) for c, s in cfgs]
+    jobs.append((cc.syntax_cmd("clang++", "c++17", path) + ["-DCONTROL"], None))
+    res = cc.run_many(jobs)
+    for (c, s), (rc, out) in zip(cfgs, res[:-1]):
+        ok = rc == 0
+        m = re.search(r"error: .*", out)
+        ctx.ob("C09.e", "no copy of an rvalue argument on the way to and through the clauses", ok,
+               pattern="verif:rules/C09.py", unit="%s@%s" % (c, s),
+               detail="" if ok else "a parameter passed as an rvalue is copied (or the witness no longer compiles) with %s "
+               "-std=%s: %s" % (c, s, (m.group(0)[:300] if m else out[-300:])),
+               witness=None if ok else {"output_tail": out[-1500:]})
+    rc, out = res[-1]
+    ok = rc != 0 and "COPIED" in out
+    ctx.ob("C09.e.control", "negative control (a RETURN that has to copy must not compile)", ok, pattern="verif:rules/C09.py",
+           detail="" if ok else "the copy trap does not fire where a copy is certainly made")
+
+
 def run(ctx):
     ctx.explanation = (
         "C09.a compile-time parametricity witness, generated for every arity 0..15 and the four mock macro families: "
@@ -130,10 +208,13 @@ def run(ctx):
         "witness covers every argument value; negative controls show the witness can fail. C09.b the dispatch "
         "function builds the tuple in place from std::forward of its own parameters in order and hands that very "
         "tuple to the actions. C09.c capture default of every clause lambda by originating macro ([=] vs [&]). "
-        "C09.d decay_return_type witnesses (shared with C08.g).")
+        "C09.d decay_return_type witnesses (shared with C08.g). C09.e copy-trap witness: a type whose copy operations "
+        "do not compile when used is passed by rvalue / by value through parameter tuple, _N, WITH, SIDE_EFFECT and "
+        "RETURN(std::move(_N)); a control that must copy is rejected.")
     ctx.assumptions = ["clang 14 / g++ 12 front ends"]
     ctx.not_decided = []
     c09a(ctx)
+    c09e(ctx)
     seen = set()
     units = []
     seen11 = set()
